@@ -200,6 +200,18 @@ def handle (op : String) (args : List String) : Option String :=
     | "removeUnused" => some (showProgram (removeUnused (calls == "1") tops p))
     | "removeOutput" => some "unsupported"
     | _ => none
+  | "thm", [prog, x, y, calls, tops] => do
+    -- instances of the property theorems on a concrete program (falsification test)
+    let p ← pProgram (prog.splitOn " ") []
+    let tops := if tops == "." then [] else tops.splitOn ","
+    let wf := WF p
+    let fresh := FreshFor x y p
+    let rt := decide (renameCallable y x (renameCallable x y p) = p)
+    let cg := decide (eraseIds (renameCallable x y p) = renameDec x y (eraseIds p))
+    let st := removeStep p (calls == "1") tops p
+    let dec := !st.2 || decide (measure st.1 < measure p)
+    let fix := !(removeStep p (calls == "1") tops (removeLoop p (calls == "1") tops (measure p + 1) p)).2
+    some (s!"wf={wf} fresh={fresh} rt={rt} cg={cg} dec={dec} fix={fix} found={(p.find? x).isSome}")
   | "roundtrip", [prog] => do
     let p ← pProgram (prog.splitOn " ") []
     some (showProgram p)
